@@ -275,7 +275,42 @@ struct HistRunner
          }
       if((int) B.size() != m) return;   // reported by checkBasis
       e.count("basis_regularity_checked");
-      if(exactRank(B) != m) v.fail(where(what) + "the basis returned by a solve is singular (exact determinant 0)");
+      if(exactRank(B) != m)
+      {
+         // known finding aggregation-cancellation-residue (root cause recorded under C08): presolve keeps a 1e-16 rounding
+         // residue as a coefficient, the reduced LP is 'solved' at |x| ~ 1e15 and the postsolved basis contains exactly
+         // parallel rows. Signature: simplifier on and a returned primal value >= 1e9 x the largest datum of the LP
+         if(knownKey("aggregation-cancellation-residue") && sp.intParam(SoPlex::SIMPLIFIER) != SoPlex::SIMPLIFIER_OFF && sp.hasPrimal())
+         {
+            Q big = 1;
+            auto see = [&](const Q & q)
+            {
+               if(isFin(q) && qabs(q) > big) big = qabs(q);
+            };
+            for(int j = 0; j < n; j++)
+            {
+               see(md.lo[j]);
+               see(md.up[j]);
+               see(md.obj[j]);
+               for(int i = 0; i < m; i++) see(md.A[i][j]);
+            }
+            for(int i = 0; i < m; i++)
+            {
+               see(md.lhs[i]);
+               see(md.rhs[i]);
+            }
+            soplex::VectorBase<double> x(n);
+            sp.getPrimal(x);
+            bool blow = false;
+            for(int j = 0; j < n; j++) if(std::isfinite(x[j]) && std::fabs(x[j]) < 1e99 && Q(std::fabs(x[j])) > Q(1000000000) * big) blow = true;
+            if(blow)
+            {
+               e.count("excluded_known.aggregation-cancellation-residue");
+               return;
+            }
+         }
+         v.fail(where(what) + "the basis returned by a solve is singular (exact determinant 0)");
+      }
    }
 
    // ---------------------------------------------------------------- solving
